@@ -138,7 +138,36 @@ def bad_lookup(rng, V, tbl, isotopes_ok=True):
             return ["badkey", tbl, "isoion", [Z, rng.choice(e["isotopes"]), q]]
 
 
+def strata(V):
+    """Fixed prefixes so that the exhaustive clause does not depend on luck: a full deep sweep
+    (every atom, every route, pickle and deepcopy of every isotope ion) of a fresh public table,
+    of a private table, of both after lazy loads, and of a second interpreter."""
+    allz = None
+    full9 = [["init", "T1", g, False] for g in ["mass", "density", "neutron", "xray", "emission",
+                                               "covalent_radius", "crystal_structure", "magnetic_ff", "activation"]]
+    return [
+        [[0, ["sweep", "public", allz, True]]],
+        [[0, ["newtable", "T1"]], [0, ["init", "T1", "mass", False]], [0, ["sweep", "T1", allz, True]],
+         [0, ["sweep", "public", allz, False]]],
+        [[0, ["newtable", "T1"]], [0, ["sweep", "T1", allz, True]], [0, ["init", "T1", "mass", False]],
+         [0, ["sweep", "T1", allz, True]]],
+        [[0, ["probe", "public", [26, 0, 0], "dirsweep"]], [0, ["probe", "public", [26, 56, 2], "dirsweep"]],
+         [0, ["sweep", "public", allz, True]]],
+        [[0, ["newtable", "T1"]]] + [[0, e] for e in full9] + [[0, ["sweep", "T1", allz, True]],
+                                                             [0, ["sweep", "public", allz, True]]],
+        [[0, ["newtable", "T1"]], [0, ["init", "T1", "mass", False]], [1, ["newtable", "T1"]],
+         [1, ["init", "T1", "mass", False]], [0, ["dump", 1, "T1", [26, 56, 2], 2]], [1, ["load", 1, "T1", [26, 56, 2]]],
+         [1, ["sweep", "T1", allz, True]], [1, ["sweep", "public", allz, False]]],
+        [[0, ["newtable", "T1"]], [0, ["newtable", "T2"]], [0, ["init", "T2", "mass", False]],
+         [0, ["init", "T1", "mass", False]], [0, ["sweep", "T2", allz, False]], [0, ["sweep", "T1", allz, False]]],
+    ]
+
+
 def gen(seed, V, tier, index, bias=None):
+    st = strata(V)
+    if index < len(st):
+        return {"prop": "C08", "seed": seed, "index": index, "cfg": {"stratum": index, "families": []},
+                "events": [list(map(lambda x: x, e)) for e in st[index]]}
     rng = random.Random(seed)
     fam = {f: rng.random() < p for f, p in (
         ("lookup", 0.8), ("badkey", 0.6), ("roundtrip", 0.5), ("container", 0.3), ("iter", 0.3),
